@@ -161,6 +161,8 @@ def chunk_decoder_checks(ch: Checker, r_carry: str, r_split: str, r_skip: str) -
 def run(ch: Checker) -> None:
     prog = ch.prog
     ce = ConstEval(prog)
+    ch.rule('C03.8', 'a line ends at CRLF and nowhere else: find_http_line (used for chunk-size lines) and the start-line / header splitters search for the two-byte CRLF; '
+                     'a bare LF (or CR stripping) makes the result depend on whether CR and LF arrived in the same piece', 2)
     ch.rule('C03.1', 'carry-in: HttpParser.parse hands <leftover> + <new bytes> (in that order) to the sub-automata whenever a leftover exists, and has no exit that skips the dispatch loop; '
                      'ChunkParser searches the size line in <held> + <new>', 2)
     ch.rule('C03.2', 'carry-out: every normal exit of HttpParser.parse stores the final remainder in self.buffer (None only when it is empty); _process_line/_process_headers return their '
@@ -293,6 +295,7 @@ def run(ch: Checker) -> None:
 
     # ---------------- chunk decoder: C03.1 (carry), C03.3 (split), C03.4 (skip)
     completion_typestate_check(ch, 'C03.6')
+    _line_terminator_check(ch, ce)
     from .common import truthiness_presence_check
     truthiness_presence_check(ch, 'C03.7', ('proxy.http.parser', 'proxy.http.url'))
     chunk_decoder_checks(ch, 'C03.1', 'C03.3', 'C03.4')
@@ -383,3 +386,28 @@ def completion_typestate_check(ch: Checker, rule: str) -> None:
                      'are later read as the next message' % (facts or 'none'), witness=wit, line=st.lineno)
     if n == 0:
         ch.bad(rule, None, 'COMPLETE stores', 'no store self.state = httpParserStates.COMPLETE found in HttpParser', module_rel='proxy/http/parser/parser.py')
+
+
+def _line_terminator_check(ch: Checker, ce: ConstEval) -> None:
+    prog = ch.prog
+    targets = [prog.function('proxy.common.utils', 'find_http_line'), prog.own_method('HttpParser', '_process_line'), prog.own_method('HttpParser', '_process_headers')]
+    for fn in targets:
+        raw = fn.params[-1] if fn.cls is None else fn.params[1]
+        seps = []
+        strips = []
+        for c in walk_no_nested(fn.node):
+            if isinstance(c, ast.Call) and isinstance(c.func, ast.Attribute) and c.args:
+                a0 = ce.try_eval(fn.module, c.args[0])
+                eol = isinstance(a0, bytes) and a0 != b'' and set(a0) <= set(b'\r\n')
+                if c.func.attr in ('split', 'partition', 'find', 'index', 'rsplit', 'rpartition', 'rfind') and eol:
+                    seps.append((c, a0))
+                if c.func.attr in ('rstrip', 'strip', 'lstrip'):
+                    v = ce.try_eval(fn.module, c.args[0])
+                    if isinstance(v, bytes) and (b'\r' in v or b'\n' in v):
+                        strips.append(c)
+            if isinstance(c, ast.Call) and isinstance(c.func, ast.Attribute) and c.func.attr == 'splitlines':
+                seps.append((c, b'\n'))
+        bad = [norm(c)[:50] for c, v in seps if v != b'\r\n'] + [norm(c)[:50] for c in strips]
+        ch.check(bool(seps) and not bad, 'C03.8', fn, 'line terminator', 'the input is cut at CRLF only (%d search(es))' % len(seps),
+                 '%s cuts its input with %s: a terminator other than the two-byte CRLF (bare LF, CR stripped afterwards) makes a piece boundary between CR and LF change what is parsed -- '
+                 'the LF that opens the next piece is read as an empty line' % (fn.qualname, bad or 'no recognisable search for CRLF'))
